@@ -28,8 +28,9 @@ META = {
             'bsr_jacobi, bsr_jacobi_indexed: missing diagonal blocks, zero diagonal entries inside stored blocks, unsorted block columns, '
             'strided sweeps) are compared with the POINT models on the explicit row list; the public point drivers take CSR or BSR storage '
             '(block indices for the indexed / coarse-fine routines). Part E: call histories of 2-4 public calls on ONE matrix object (CSR, '
-            'BSR of a block size dividing n, CSC): schwarz with different decompositions of equal shapes (other indices / other pointers / '
-            'the same again; given, inverse or internally computed sub-blocks) or default subdomains throughout; block_jacobi / '
+            'BSR of a block size dividing n, CSC): schwarz with default and given subdomains mixed, decompositions of equal shapes (other '
+            'indices / other pointers / the same again) and of other total / pointer length, the same decomposition with other given, inverse '
+            'or internally computed sub-blocks; block_jacobi / '
             'block_gauss_seidel / cf_ / fc_block_jacobi with and without Dinv and with another block size; jacobi_ne / gauss_seidel_ne / '
             'gauss_seidel_nr with and without Dinv; polynomial with other coefficients of the same length; each call judged against the Lean '
             'model and the dense formula for ITS arguments (cf_ / fc_block_jacobi included: model pubCFBlockJacobi). Part F (extension E33): '
@@ -39,8 +40,6 @@ META = {
             'input against the models that INCLUDE the storage conversion (Model/ExtC09XIndexed.lean: blockJacobiIndexed, pyCFBlockJacobi, '
             'pubBlockJacobi, pubBlockGaussSeidel, pubCFBlockJacobi, pubGaussSeidelNR)',
     'search_only': ['single-precision complex (complex64) jacobi / gauss_seidel, CSR and BSR: dense formula, tolerance 2e-4',
-                    'schwarz call histories that mix default and given subdomains, or decompositions of different total length, on one '
-                    'matrix object are NOT generated (the unchanged code raises / reuses the cached decomposition there; reported)',
                     'default inverse blocks (Dinv=None, inv_subblock=None: pyamg inverts with its SVD kernel / LAPACK gelss): the '
                     'model is fed the exact rational inverses computed by the harness and compared within 1e-9, not bit-exactly',
                     'single precision: tolerance comparison only'],
@@ -1614,8 +1613,7 @@ def hist_case(rng, t):
     dt = complex if cplx else float
     n = int(rng.choice([2, 3, 4, 4, 6, 6]))
     M = _well_system(rng, n, cplx)
-    schwarz_default = bool(rng.random() < 0.2)
-    if schwarz_default:     # pattern-defined subdomains: symmetric pattern as in part C
+    if rng.random() < 0.5:     # symmetric pattern (as in part C) / general pattern
         M = M + M.conj().T
         M[np.arange(n), np.arange(n)] = np.abs(M).sum(1) + 1
     A = gen.int32csr(sp.csr_array(M))
@@ -1623,15 +1621,16 @@ def hist_case(rng, t):
     divs = [d for d in (1, 2, 3) if n % d == 0]
     r = rng.random()
     obj = 'csr' if r < 0.45 else (f'bsr{int(rng.choice(divs))}' if r < 0.85 else 'csc')
-    if schwarz_default and obj.startswith('bsr'):
-        obj = 'csr'     # the default subdomains are the STORED row patterns; BSR -> CSR conversion stores the zeros of a block
     base = {'kind': 'ext', 'complex': cplx, 'n': n, 'indptr': A.indptr.tolist(), 'indices': A.indices.tolist(), 'data': _jl(A.data), 'fmt': 'csr'}
     D = M.astype(dt)
-    # the Schwarz decompositions of one history have the same number of subdomains and the same total length
+    # the 'home' shape of the Schwarz decompositions of this history (number of subdomains, sizes); calls may also use another one
     nd = int(rng.integers(1, n + 1))
     sizes = [int(rng.integers(1, min(n, 3) + 1)) for _ in range(nd)]
     ncoef = int(rng.integers(1, 4))
-    calls, last_schwarz = [], None
+    calls, last_schwarz, cache = [], None, None
+    rows_dec = (A.indices.tolist(), A.indptr.tolist())       # what subdomain=None stands for: the (sorted) rows of A
+    # default subdomains are the STORED row patterns; BSR -> CSR conversion stores the zeros of a block: no default mode there
+    sch_modes = ['subdomain_only', 'subdomain_only', 'arbitrary', 'inverse'] + ([] if obj.startswith('bsr') else ['default', 'default'])
     for k in range(int(rng.integers(2, 5))):
         method = str(rng.choice(HIST_FOCUS[focus]))
         c = dict(base, method=method, omega=float(rng.choice([1.0, 0.5, 1.5, 0.75])), iterations=int(rng.integers(1, 3)),
@@ -1661,38 +1660,54 @@ def hist_case(rng, t):
                 sc = np.array([2.0 ** -int(np.ceil(np.log2(v))) for v in nn])
                 c['Dinv'] = _jl((sc * rng.choice([1, 0.5, 0.25, 0], size=n)).astype(dt))
         else:   # schwarz
-            if schwarz_default:
-                c['mode'] = 'default'
-            elif last_schwarz is not None and rng.random() < 0.2:
-                # the very same decomposition and the very same precomputed data again (legitimate reuse)
-                c.update({key: last_schwarz[key] for key in ('mode', 'subdomain', 'subdomain_ptr', 'inv_subblock', 'inv_subblock_ptr')})
+            keys = ('mode', 'subdomain', 'subdomain_ptr', 'inv_subblock', 'inv_subblock_ptr')
+            if last_schwarz is not None and rng.random() < 0.15:
+                # the very same call again (legitimate reuse of what the previous call left on the matrix)
+                c.update({key: last_schwarz[key] for key in keys if key in last_schwarz})
+                eff = last_schwarz['_eff']
             else:
-                c['mode'] = str(rng.choice(['subdomain_only', 'subdomain_only', 'arbitrary', 'inverse']))
+                c['mode'] = str(rng.choice(sch_modes))
                 r2 = rng.random()
-                if last_schwarz is not None and r2 < 0.3:
+                if c['mode'] == 'default':
+                    sj_, sp_ = list(rows_dec[0]), list(rows_dec[1])
+                elif last_schwarz is not None and r2 < 0.2:
+                    # the decomposition of the previous Schwarz call (given or default) again, other / no precomputed inverses
+                    sj_, sp_ = list(last_schwarz['_eff'][0]), list(last_schwarz['_eff'][1])
+                elif last_schwarz is not None and r2 < 0.35:
                     # same index array, other pointer array of the same length
-                    sj_, sp_ = list(last_schwarz['subdomain']), _rand_decomposition(rng, n, list(rng.permutation(sizes)))[1]
-                    ok = all(len(set(sj_[sp_[d]:sp_[d + 1]])) == sp_[d + 1] - sp_[d] for d in range(nd))
-                    sj_ = [v for d in range(nd) for v in sorted(sj_[sp_[d]:sp_[d + 1]])]
+                    sj_, sp0 = list(last_schwarz['_eff'][0]), last_schwarz['_eff'][1]
+                    sp_ = _rand_decomposition(rng, n, [int(v) for v in rng.permutation(np.diff(sp0))])[1]
+                    ok = all(len(set(sj_[sp_[d]:sp_[d + 1]])) == sp_[d + 1] - sp_[d] for d in range(len(sp_) - 1))
+                    sj_ = [v for d in range(len(sp_) - 1) for v in sorted(sj_[sp_[d]:sp_[d + 1]])]
                     if not ok:
                         sj_, sp_ = _rand_decomposition(rng, n, sizes)
-                elif last_schwarz is not None and r2 < 0.55:
+                elif last_schwarz is not None and r2 < 0.5:
                     # same pointer array, other indices
-                    sp_ = list(last_schwarz['subdomain_ptr'])
-                    sj_, sp_ = _rand_decomposition(rng, n, np.diff(sp_))
-                else:
+                    sj_, sp_ = _rand_decomposition(rng, n, np.diff(last_schwarz['_eff'][1]))
+                elif r2 < 0.75:
                     sj_, sp_ = _rand_decomposition(rng, n, list(rng.permutation(sizes)))
-                tx_, tp_ = [], [0]
-                for d in range(nd):
-                    idx = sj_[sp_[d]:sp_[d + 1]]
-                    m = len(idx)
-                    T = np.linalg.inv(D[np.ix_(idx, idx)]) if c['mode'] != 'arbitrary' else (rng.integers(-2, 3, size=(m, m)) * 0.125).astype(dt)
-                    tx_ += list(np.asarray(T, dtype=dt).ravel())
-                    tp_.append(len(tx_))
-                c.update({'subdomain': sj_, 'subdomain_ptr': sp_, 'inv_subblock': _jl(np.array(tx_, dtype=dt)), 'inv_subblock_ptr': tp_})
-                if last_schwarz is not None and (sj_, sp_) == (last_schwarz['subdomain'], last_schwarz['subdomain_ptr']):
-                    # an unchanged decomposition legitimately reuses the data of the previous call: pass the same data
-                    c.update({key: last_schwarz[key] for key in ('mode', 'inv_subblock', 'inv_subblock_ptr')})
+                else:
+                    # another number of subdomains / another total length than anything before
+                    nd2 = int(rng.integers(1, n + 2))
+                    sj_, sp_ = _rand_decomposition(rng, n, [int(rng.integers(0 if rng.random() < 0.2 else 1, min(n, 3) + 1)) for _ in range(nd2)])
+                eff = (sj_, sp_)
+                # (omitted inverses after a call that passed its own non-inverse blocks for the same decomposition used to reuse
+                # those blocks: repaired in /repo 713a040 -- supplied inverses are not cached -- and generated like any other history)
+                if c['mode'] != 'default':
+                    tx_, tp_ = [], [0]
+                    for d in range(len(sp_) - 1):
+                        idx = sj_[sp_[d]:sp_[d + 1]]
+                        m = len(idx)
+                        T = (np.linalg.inv(D[np.ix_(idx, idx)]) if m else np.zeros((0, 0))) if c['mode'] != 'arbitrary' else \
+                            (rng.integers(-2, 3, size=(m, m)) * 0.125).astype(dt)
+                        tx_ += list(np.asarray(T, dtype=dt).ravel())
+                        tp_.append(len(tx_))
+                    c.update({'subdomain': sj_, 'subdomain_ptr': sp_, 'inv_subblock': _jl(np.array(tx_, dtype=dt)), 'inv_subblock_ptr': tp_})
+            c['_eff'] = eff
+            # what the call leaves on a CSR matrix object
+            omitted = c['mode'] in ('default', 'subdomain_only')
+            if not (omitted and cache is not None and cache['eff'] == eff):
+                cache = {'eff': eff, 'arbitrary': c['mode'] == 'arbitrary', 'tx': c.get('inv_subblock'), 'tp': c.get('inv_subblock_ptr')}
             last_schwarz = c
         c['b'] = _jl(gen.rand_vec(rng, n, cplx).astype(dt))
         c['x'] = _jl(gen.rand_vec(rng, n, cplx).astype(dt))
@@ -1805,11 +1820,15 @@ def part_e(ctx, N):
             ctx.feat('hist:same_routine_again')
             if c.get('bs') != h['calls'][k - 1].get('bs'):
                 ctx.feat('hist:other_blocksize')
-            if 'subdomain' in c and 'subdomain' in h['calls'][k - 1]:
+            if '_eff' in c and '_eff' in h['calls'][k - 1]:
                 p_ = h['calls'][k - 1]
-                ctx.feat('hist:schwarz:' + ('same_decomposition' if (c['subdomain'], c['subdomain_ptr']) == (p_['subdomain'], p_['subdomain_ptr'])
-                                            else 'other_indices_same_ptr' if c['subdomain_ptr'] == p_['subdomain_ptr']
-                                            else 'same_indices_other_ptr' if c['subdomain'] == p_['subdomain'] else 'other_decomposition'))
+                (s1, p1), (s0, p0) = c['_eff'], p_['_eff']
+                ctx.feat('hist:schwarz:' + (('same_decomposition' + ('' if c['mode'] == p_['mode'] else ':other_mode')) if (s1, p1) == (s0, p0)
+                                            else 'other_indices_same_ptr' if p1 == p0 else 'same_indices_other_ptr' if s1 == s0
+                                            else 'other_decomposition_same_shapes' if (len(s1), len(p1)) == (len(s0), len(p0))
+                                            else 'other_shapes'))
+                if 'default' in (c['mode'], p_['mode']) and c['mode'] != p_['mode']:
+                    ctx.feat('hist:schwarz:default<->given')
         if np.asarray(out).size and not np.max(np.abs(out)) < 1e12:
             ctx.near_skipped += 1
             ctx.feat('hist:skipped_diverged')
